@@ -300,7 +300,7 @@ func init() {
 	for _, n := range []string{"nondetString", "nondetBool", "nondetInt", "nondetIntRange", "nondetRegexp", "nondetPred", "nondetURLPred",
 		"nondetRewriter", "nondetError", "verifAssume", "verifAssert", "verifReach", "verifProvenance", "verifFreeze", "verifNote",
 		"verifNoteBool", "verifNoteInt", "verifMatch", "verifHasToken", "verifCut", "verifIsTokStr", "verifLower", "verifURLHost", "verifURLScheme", "verifURLOk", "verifURLNorm",
-		"verifEffects", "verifSameObject", "verifWrite", "verifWriteFailed", "verifOr", "verifAnd", "verifImplies", "verifCurrentToken", "verifIte", "verifNot", "verifMatchPrefix", "verifAppended", "verifParam", "verifNoteURL"} {
+		"verifEffects", "verifSameObject", "verifWrite", "verifWriteFailed", "verifOr", "verifAnd", "verifImplies", "verifCurrentToken", "verifIte", "verifNot", "verifMatchPrefix", "verifAppended", "verifParam", "verifNoteURL", "verifURLStubCount", "verifURLStubProduced"} {
 		intrinsicNames[n] = true
 	}
 }
@@ -462,6 +462,18 @@ func (in *Interp) intrinsic(st *State, fr *Frame, name string, args []Value, cc 
 			l, _ := st.Ghost["urlstubs"].([][3]*smt.Term)
 			st.Ghost["urlstubs"] = append(append([][3]*smt.Term(nil), l...), [3]*smt.Term{raw, out, okT})
 		}}}
+	case "verifURLStubCount":
+		l, _ := st.Ghost["urlstubs"].([][3]*smt.Term)
+		return one(smt.IntC(int64(len(l))))
+	case "verifURLStubProduced":
+		// v is the output of some accepted validURL call on this path
+		v := termOf(args[0])
+		l, _ := st.Ghost["urlstubs"].([][3]*smt.Term)
+		var ds []*smt.Term
+		for _, u := range l {
+			ds = append(ds, smt.And(u[2], smt.Eq(v, u[1])))
+		}
+		return one(smt.Or(ds...))
 	case "verifNot":
 		return one(smt.Not(termOf(args[0])))
 	case "verifMatchPrefix":
